@@ -231,6 +231,13 @@ OrderOf(q) == LET ds == DosingOf(q)
                           rem == Asc({a \in rest : inp[a] # 0}) \o Asc({a \in rest : inp[a] = 0})
                       IN RestLoop(nodes, rem)
 Order == OrderOf(ins)
+\* CompartmentalSystem.subs (any substitution, even {}): every compartment is rebuilt from the VIEW of its doses, so a
+\* compartment whose stored dose tuple is not infusions-first becomes a different node and re-enters at the end of
+\* the node order (in node order) -- which can change the central compartment and with it the reported order
+RECURSIVE SubsNodes(_, _)
+SubsNodes(q, todo) == IF todo = <<>> THEN q
+                      ELSE SubsNodes(IF doses[Head(todo)] # View(doses[Head(todo)]) THEN ToEnd(q, Head(todo)) ELSE q, Tail(todo))
+OrderAfterSubs == OrderOf(SubsNodes(ins, ins))
 
 \* ---------------------------------------------------------------- derived: matrix, inputs, equations
 \* a matrix entry / right hand side is a set of signed terms <<sign, src, dst, kind>> (a rate is identified by
@@ -310,6 +317,7 @@ Case == LET o == Order
             nout |-> NOut,
             dosing |-> NamesSeq(DosingOf(ins)),
             order |-> NamesSeq(o),
+            subs_order |-> NamesSeq(OrderAfterSubs),
             matrix |-> {[row |-> Name[o[r]], col |-> Name[o[c]], terms |-> {TermJ(t) : t \in M[r][c]}] :
                         <<r, c>> \in {x \in (1..Len(o)) \X (1..Len(o)) : M[x[1]][x[2]] # {}}},
             eqs |-> {[comp |-> Name[a],
